@@ -70,6 +70,77 @@ def main():
                 err = float(np.max(np.abs(M.T @ J @ M - J)))
                 if err > (1e-5 if implicit else 1e-8):
                     failures.append(dict(method=name, clause="M^T J M = J", h=h, err=err))
+    # a kick mask other than the default, given to an instance that is *not the first of its class in the process* (nothing may be shared
+    # between instances): interleaved layout y = (q1, p1, q2, p2), mask (0, 1, 0, 1); the one-step map is symplectic for the interleaved J
+    def ham_rhs_interleaved(t, y, **kw):
+        q, p = y[0::2], y[1::2]
+        out = np.empty_like(y)
+        out[0::2] = p + 0.1 * p ** 3
+        out[1::2] = -np.sin(q) - 0.2 * q ** 3
+        return out
+    from desolver.differential_system import DiffRHS
+    Ji = np.kron(np.eye(2), np.array([[0.0, 1.0], [-1.0, 0.0]]))
+    for name in req["methods"]:
+        cls = getattr(I, name)
+        if not issubclass(cls, I.ExplicitSymplecticIntegrator):
+            continue
+        y0 = rng.normal(size=4) * 0.7
+        first = cls((4,), dtype=dtype)                                  # default mask, used once
+        first(DiffRHS(ham_rhs), dtype(0.0), y0, {}, dtype(0.05))
+        for h in (0.05, -0.05):
+            def step(y):
+                integ = cls((4,), dtype=dtype, staggered_mask=np.array([0, 1, 0, 1], dtype=bool))
+                return y + integ(DiffRHS(ham_rhs_interleaved), dtype(0.0), y, {}, dtype(h))[1][1]
+            d = 1e-6
+            M = np.zeros((4, 4))
+            try:
+                for j in range(4):
+                    e = np.zeros(4)
+                    e[j] = d
+                    M[:, j] = (step(y0 + e) - step(y0 - e)) / (2 * d)
+            except Exception as e_:
+                failures.append(dict(method=name, clause="explicit mask on a later instance raises", exc=repr(e_)[:100]))
+                continue
+            cases += 1
+            err = float(np.max(np.abs(M.T @ Ji @ M - Ji)))
+            if err > 1e-8:
+                failures.append(dict(method=name, clause="M^T J M = J with kick mask (0,1,0,1) on an instance built after a default-mask one", h=h, err=err))
+    # one instance reused across a faulted call: a step of h1, then a call at another step size in which the right-hand side raises
+    # half-way, then h1 followed by -h1 must still return to the start (nothing of the aborted call may survive in the instance)
+    class Boom(Exception):
+        pass
+    for name in req["methods"]:
+        cls = getattr(I, name)
+        if not issubclass(cls, I.ExplicitSymplecticIntegrator):
+            continue
+        y0 = rng.normal(size=4) * 0.7
+        integ = cls((4,), dtype=dtype)
+        h1 = dtype(0.05)
+        integ(DiffRHS(ham_rhs), dtype(0.0), y0, {}, h1)
+        calls = [0]
+
+        def faulty(t, y, **kw):
+            calls[0] += 1
+            if calls[0] >= 2:
+                raise Boom()
+            return ham_rhs(t, y)
+        try:
+            integ(DiffRHS(faulty), dtype(0.0), y0, {}, dtype(0.4))
+        except Boom:
+            pass
+        except Exception:
+            pass
+        try:
+            y1 = y0 + integ(DiffRHS(ham_rhs), dtype(0.0), y0, {}, h1)[1][1]
+            yb = y1 + integ(DiffRHS(ham_rhs), h1, y1, {}, -h1)[1][1]
+        except Exception as e_:
+            failures.append(dict(method=name, clause="instance unusable after a faulted call", exc=repr(e_)[:100]))
+            continue
+        cases += 1
+        fresh = cls((4,), dtype=dtype)
+        y1f = y0 + fresh(DiffRHS(ham_rhs), dtype(0.0), y0, {}, h1)[1][1]
+        if np.max(np.abs(yb - y0)) > 1e-12 or np.max(np.abs(y1 - y1f)) > 1e-14:
+            failures.append(dict(method=name, clause="reversible and equal to a fresh instance after a faulted call at another step size", err=float(np.max(np.abs(yb - y0))), diff_to_fresh=float(np.max(np.abs(y1 - y1f)))))
     # mask construction (exhaustive small scope): kick mask 0/1, drift = 1 - kick, default = second half
     for cls in (I.SymplecticEulerSolver, I.BABs9o7HSolver, I.ABAs5o6HSolver):
         for dim in range(2, 7):
